@@ -267,4 +267,56 @@ theorem mergeLoop_length (n : Nat) (ok : Row α → List Nat → List Nat → Bo
       have h1 := ih (pre ++ [r]) _ st' h (cinv_keep hinv r)
       rw [List.countP_cons]; omega
 
+
+/-- a set of leaves that lies inside one cluster stays inside one cluster -/
+theorem mergeLoop_superset (n : Nat) (ok : Row α → List Nat → List Nat → Bool) (S : List Nat) :
+    ∀ (rs pre : Dendro α) (st st' : Dict (List Nat)),
+      mergeLoop n ok pre.length rs st = .ok st' → CInv n pre st →
+      (∃ p ∈ st, ∀ v ∈ S, v ∈ p.2) → ∃ p ∈ st', ∀ v ∈ S, v ∈ p.2 := by
+  intro rs
+  induction rs with
+  | nil => intro pre st st' h _ hp; simp only [mergeLoop, Except.ok.injEq] at h; subst h; exact hp
+  | cons r rs ih =>
+    intro pre st st' h hinv hp
+    have hl : (pre ++ [r]).length = pre.length + 1 := by simp
+    unfold mergeLoop at h
+    split at h
+    · rename_i ci cj hi hj
+      split at h
+      · split at h
+        · cases h
+        · rename_i hne
+          rw [← hl] at h
+          refine ih (pre ++ [r]) _ st' h (cinv_merge hinv r hi hj hne) ?_
+          obtain ⟨p, hp, hS⟩ := hp
+          have hmem : ∀ q, q ∈ merged n st pre.length r.i r.j ci cj ↔
+              (q ∈ st ∧ q.1 ≠ r.i ∧ q.1 ≠ r.j) ∨ q = (n + pre.length, ci ++ cj) := by
+            intro q
+            rw [merged_eq hinv]
+            simp only [List.mem_append, List.mem_cons, List.not_mem_nil, or_false, Dict.mem_erase]
+            constructor
+            · rintro (⟨⟨h1, h2⟩, h3⟩ | h4)
+              · exact Or.inl ⟨h1, h2, h3⟩
+              · exact Or.inr h4
+            · rintro (⟨h1, h2, h3⟩ | h4)
+              · exact Or.inl ⟨⟨h1, h2⟩, h3⟩
+              · exact Or.inr h4
+          by_cases h1 : p.1 = r.i
+          · have : p.2 = ci := by
+              have := Dict.mem_get?_of_nodup hinv.nodup (k := p.1) (v := p.2) hp
+              rw [h1, hi] at this; exact (Option.some.inj this).symm
+            refine ⟨(n + pre.length, ci ++ cj), (hmem _).mpr (Or.inr rfl), ?_⟩
+            intro v hv; exact List.mem_append_left _ (this ▸ hS v hv)
+          · by_cases h2 : p.1 = r.j
+            · have : p.2 = cj := by
+                have := Dict.mem_get?_of_nodup hinv.nodup (k := p.1) (v := p.2) hp
+                rw [h2, hj] at this; exact (Option.some.inj this).symm
+              refine ⟨(n + pre.length, ci ++ cj), (hmem _).mpr (Or.inr rfl), ?_⟩
+              intro v hv; exact List.mem_append_right _ (this ▸ hS v hv)
+            · exact ⟨p, (hmem _).mpr (Or.inl ⟨hp, h1, h2⟩), hS⟩
+      · rw [← hl] at h
+        exact ih (pre ++ [r]) _ st' h (cinv_keep hinv r) hp
+    · rw [← hl] at h
+      exact ih (pre ++ [r]) _ st' h (cinv_keep hinv r) hp
+
 end SkNet.Cut
